@@ -271,9 +271,15 @@ def generate(rng, knobs=None):
                     call = {"dates": dates, "names": names, "transform": tname}
                     if wd or rng.random() < 0.3:
                         call["when_data"] = wd
+                    if kind in E.LAGGED_TRANSFORMS and rng.random() < 0.3:
+                        # a non-default reference lag of the plan transform (year-on-year rates on quarterly data, ...); only
+                        # where the reference period lies inside the pre-sample the simulation keeps
+                        sh = -int(rng.choice([2, 3, 4]))
+                        if all(k_ + sh >= -max(st["max_lag"], 1) for k_ in g):
+                            call["shift"] = sh
                     plan.append(call)
     cells = S.resolve_plan(spec, plan, T)
-    for (x, k), (kind, wd) in cells.items():
+    for (x, k), (kind, wd, *_) in cells.items():
         sname = E.PLAN_PREFIX[kind] + x
         kind_of_series[sname] = (kind, x)
         need.setdefault(sname, {})[k] = "maybe" if wd else "finite"
